@@ -47,6 +47,12 @@ Definition w_addr_h1_new : bytes := [0;0;132;0;0;0;0;0;0;0;0;1;5;104;111;115;116
 (* round 9: PTR (TTL 120) and its goodbye in one packet *)
 Definition w_ptr_and_bye : bytes := [0;0;132;0;0;0;0;2;0;0;0;0;5;95;104;116;116;112;4;95;116;99;112;5;108;111;99;97;108;0;0;12;0;1;0;0;0;120;0;6;3;119;101;98;192;12;192;12;0;12;0;1;0;0;0;0;0;2;192;40] .
 
+(* seed sweep after round 9: A + PTR; TXT + SRV (TTL 10); a second A (TTL 10, cache-flush); a second TXT *)
+Definition w_ov_a_ptr : bytes := [0;0;132;0;0;0;0;0;0;0;0;2;5;104;111;115;116;49;5;108;111;99;97;108;0;0;1;128;1;0;0;0;120;0;4;192;168;1;85;5;95;104;116;116;112;4;95;116;99;112;192;18;0;12;0;1;0;0;17;148;0;6;3;119;101;98;192;39].
+Definition w_ov_txt_srv10 : bytes := [0;0;132;0;0;0;0;0;0;1;0;1;3;119;101;98;5;95;104;116;116;112;4;95;116;99;112;5;108;111;99;97;108;0;0;16;128;1;0;0;17;148;0;4;3;97;61;49;192;12;0;33;128;1;0;0;0;10;0;14;0;0;0;0;19;136;5;104;111;115;116;49;192;27].
+Definition w_ov_a2 : bytes := [0;0;132;0;0;0;0;0;0;0;0;1;5;104;111;115;116;49;5;108;111;99;97;108;0;0;1;128;1;0;0;0;10;0;4;192;168;1;25].
+Definition w_ov_txt2 : bytes := [0;0;132;0;0;0;0;0;0;0;0;1;3;119;101;98;5;95;104;116;116;112;4;95;116;99;112;5;108;111;99;97;108;0;0;16;0;1;0;0;17;148;0;6;5;107;61;100;117;112].
+
 Definition ex_ifs : iftab := [(2, (true, true)); (3, (true, false))].
 Definition T0 : N := 1000000.
 
@@ -455,4 +461,29 @@ Lemma found_withdrawn_witness :
   /\ existsb is_followup_fail (viol_C04 ex_ifs withdrawn_hist (ex_wakes withdrawn_hist) (map obs_of (run_history ex_ifs withdrawn_hist))) = true
   /\ known_found_withdrawn ex_ifs ex_follow = false /\ known_found_withdrawn ex_ifs ex_hist = false
   /\ known_found_withdrawn ex_ifs lastsec_hist = false.
+Proof. repeat split; vm_compute; reflexivity. Qed.
+
+(* C04-stale-resolve-overlaps-series (the daemon agrees; generator case life522 of seed 7): the PTR
+   arrives one datagram before SRV / TXT in the iteration at +12201: a follow-up is queued for +12701
+   and the instance is resolved; NO iteration until +22201 (late schedule), when the SRV (TTL 10) runs
+   out and a new address record arrives: ServiceRemoved, a new series is queued for +22701 - and the
+   leftover try of +12701 runs, finds nothing to ask and takes the instance out of pending_resolves;
+   the new TXT record at +23202 therefore starts another series: questions at +23202, +23702,
+   +24202, +24702 *)
+Definition overlap_hist : list iter :=
+  [ mkIter T0 [] [CBrowse n_ty 1];
+    mkIter (T0 + 12201) [mkDgram 2 true w_ov_a_ptr; mkDgram 2 true w_ov_txt_srv10] [];
+    mkIter (T0 + 22201) [mkDgram 2 true w_ov_a2] [];
+    mkIter (T0 + 23202) [mkDgram 2 true w_ov_txt2] [];
+    mkIter (T0 + 23702) [] [];
+    mkIter (T0 + 24202) [] [];
+    mkIter (T0 + 24702) [] [];
+    mkIter (T0 + 25202) [] [] ].
+
+Lemma overlapping_series_witness :
+  wf_history overlap_hist = true /\ known_overlapping_series ex_ifs overlap_hist = true
+  /\ map (fun o => length (questions_of o)) (run_history ex_ifs overlap_hist) = [0; 0; 0; 1; 2; 2; 1; 0]%nat
+  /\ existsb is_many_fail (viol_C04 ex_ifs overlap_hist (ex_wakes overlap_hist) (map obs_of (run_history ex_ifs overlap_hist))) = true
+  /\ known_overlapping_series ex_ifs ex_follow = false /\ known_overlapping_series ex_ifs ex_hist = false
+  /\ known_overlapping_series ex_ifs restart_hist = false.
 Proof. repeat split; vm_compute; reflexivity. Qed.
